@@ -130,8 +130,10 @@ def main(argv=None):
             elif isinstance(v, (int, float)):
                 extra[k] = extra.get(k, 0) + v
     findings = known_findings()
-    os.makedirs(os.path.join(VERIF, "evidence"), exist_ok=True)
-    os.makedirs(os.path.join(VERIF, "replays"), exist_ok=True)
+    evdir = os.environ.get("VERIF_EVIDENCE_DIR") or os.path.join(VERIF, "evidence")
+    repdir = os.path.join(os.path.dirname(evdir), "replays") if os.environ.get("VERIF_EVIDENCE_DIR") else os.path.join(VERIF, "replays")
+    os.makedirs(evdir, exist_ok=True)
+    os.makedirs(repdir, exist_ok=True)
     real, known = [], {}
     for v in viols:
         f = match_finding(v, findings, cid)
@@ -153,6 +155,8 @@ def main(argv=None):
                 continue
             seen.add(key)
             path = os.path.join("replays", f"{cid}-{k}.json")
+            if os.environ.get("VERIF_EVIDENCE_DIR"):
+                path = os.path.join(repdir, f"{cid}-{k}.json")
             with open(os.path.join(VERIF, path), "w") as f:
                 json.dump(v, f, indent=1, default=str)
             lines.append(f"VIOLATION property={cid} replay={path}")
@@ -196,7 +200,7 @@ def main(argv=None):
     if spec.level == "translation_validation":
         ev["coverage"]["programs"] = extra.get("programs", evals)
         ev["coverage"]["disagreements_checked"] = extra.get("disagreements_checked", 0)
-    with open(os.path.join(VERIF, "evidence", f"{cid}.json"), "w") as f:
+    with open(os.path.join(evdir, f"{cid}.json"), "w") as f:
         json.dump(ev, f, indent=1, default=str)
     print(f"{cid} {tier}: {evals} executions, {len(sigs)} distinct non-trivial, {len(real)} violations, "
           f"{sum(n for _, n in known.values())} known-finding hits, {wall:.1f}s")
